@@ -127,7 +127,7 @@ def run(chk, replay=None):
                     attach([None], d, [d], tr, True)
         # sequences of attach / re-attach over devices of differing types
         types = [0, 1, 3, 4, 5, 7, 8, 2, 9, 0x0C, 0x0D, 0x0E, 0x11, 0x1E, 0x1F]
-        seqs = list(itertools.product(types, repeat=2)) + [tuple(rng.choice(types) for _ in range(3)) for _ in range(60 if chk.quick else 30000)]
+        seqs = list(itertools.product(types, repeat=2)) + [tuple(rng.choice(types) for _ in range(3)) for _ in range(60 if chk.quick else 100000)]
         for k, seq in enumerate(seqs):
             tr = ("sgio", "iscsi")[k % 2]
             events.append({"ev": "reset"})
